@@ -39,6 +39,9 @@ type WorldSpec struct {
 	NoHuge bool
 	// NearTie is the probability that a timestamp lies within 0..255 ns after a grid point.
 	NearTie float64
+	// DupRec is the probability that a record is an exact repetition of the record before
+	// it (same timestamp, same stream, same bytes): two records, not one.
+	DupRec float64
 	// DupTS is the probability that a record repeats the timestamp of the record before it.
 	DupTS float64
 }
@@ -199,6 +202,14 @@ func genLog(r *Rng, s WorldSpec, ci int) []Record {
 	}
 	if !s.Unsorted {
 		sort.SliceStable(recs, func(a, b int) bool { return recs[a].TS < recs[b].TS })
+	}
+	if s.DupRec > 0 {
+		dr := r.Sub("dup-rec")
+		for j := 1; j < len(recs); j++ {
+			if dr.Bool(s.DupRec) {
+				recs[j] = Record{T: recs[j-1].T, TS: recs[j-1].TS, Msg: append([]byte(nil), recs[j-1].Msg...)}
+			}
+		}
 	}
 	if s.DupTS > 0 {
 		dr := r.Sub("dup-ts")
